@@ -279,3 +279,28 @@ Proof.
     rewrite !T4V.C04.ProofsCard.to_cos_deg. reflexivity. }
   split; [apply K|]. split; [apply K|]. now apply card_gives_canonical.
 Qed.
+
+(* ================= round 4: starred cards with an abbreviated matrix ======== *)
+(* *TRn o <angles with J placeholders>: MIP's normalize_transform turns every
+   supplied angle into its cosine (to_cos) and leaves the J's; the card then
+   behaves as the unstarred card on the cosine pattern, so every
+   C04_normalize_matrix_*_reproduces theorem applies to it *)
+Definition cos_pattern (apat : V4.M3 (option R)) : V4.M3 (option R) :=
+  V4.vmap (V4.vmap (option_map (M4.to_cos RS))) apat.
+
+Theorem starred_abbreviated_card (o : S4.R3) (apat : V4.M3 (option R)) (b : V4.M3 R) :
+  M4.normalize_matrix RS (V4.mlist (cos_pattern apat)) = M4.Ok (V4.mlist b) ->
+  S4.rows_orthonormal b -> T4V.C04.ProofsMatrix.clip_ok_m b ->
+  M4.tr_card RS true (map Some (V4.vlist o) ++ V4.mlist apat) = M4.Ok (V4.vlist o ++ V4.mlist b) /\
+  card_gives (V4.vlist o ++ V4.mlist b) o b.
+Proof.
+  intros E9 Hb Hc. split; [|now apply card_gives_canonical].
+  pose proof (T4V.C04.ProofsMatrix.adjust_matrix_fixpoint b Hb Hc) as Ea.
+  destruct o as [o1 o2 o3], apat as [[p1 p2 p3] [p4 p5 p6] [p7 p8 p9]],
+           b as [[b1 b2 b3] [b4 b5 b6] [b7 b8 b9]].
+  unfold M4.tr_card, M4.mip_normalize, cos_pattern in *.
+  cbv [V4.mlist V4.vlist V4.vmap V4.vx V4.vy V4.vz app map] in E9, Ea |- *.
+  cbn [List.length Nat.eqb firstn skipn map app]. unfold M4.normalize_transform.
+  cbn [List.length Nat.eqb andb firstn skipn app]. rewrite E9. cbn [M4.bind].
+  rewrite Ea. cbn [M4.bind M4.values M4.rmap app]. reflexivity.
+Qed.
